@@ -550,6 +550,6 @@ def coveredAttrClasses : List (String × List String × List String × List (Str
 
 /-- (kind, guards) of the exits of `dtype_to_tensor_type`: `None`, numpy's `ValueError` for a malformed
     spec, `object`, and ONNX's unknown-dtype errors all leave as `TypeError`. -/
-def coveredDtypeExits : List (String × List String) := [("raise", ["v0 is None"]), ("raise", ["<except ValueError>"]), ("raise", ["v2 == np.dtype(object)"]), ("return", ["not (v2 == np.dtype(object))", "v2 == np.dtype(str)"]), ("return", ["<try>"]), ("raise", ["<except (KeyError, ValueError)>"])]
+def coveredDtypeExits : List (String × List String) := [("raise", ["p0 is None"]), ("raise", ["<except ValueError>"]), ("raise", ["np.dtype(np.dtype(p0).type) == np.dtype(object)"]), ("return", ["not (np.dtype(np.dtype(p0).type) == np.dtype(object))", "np.dtype(np.dtype(p0).type) == np.dtype(str)"]), ("return", ["<try>"]), ("raise", ["<except (KeyError, ValueError)>"])]
 
 end Conform
